@@ -24,11 +24,44 @@ type Cfg struct {
 	DirOn                       bool
 	DirTTL                      time.Duration
 	DirCap, DirMaxSize, MaxHand int
+	Noise                       uint64 // bits choosing values for options that must not affect any reply (see Opts)
 	Async                       bool   // ExportOptions.Async (documented "allow async writes"); not part of Srv.cfg
 	Squash                      string // "" = none; not part of Srv.cfg: the Coq side is given the EFFECTIVE credentials
 }
 
 func (c Cfg) Opts() absnfs.ExportOptions {
+	o := c.baseOpts()
+	// options that configure transport, pooling, timeouts and logging: whatever their values, no reply to a request
+	// made through the handlers may depend on them (the code-level model has no such parameters)
+	n := c.Noise
+	bit := func() bool { b := n&1 != 0; n >>= 1; return b }
+	if bit() {
+		o.Async = true
+	}
+	if bit() {
+		o.MaxWorkers = []int{1, 4, 64}[n%3]
+		n >>= 2
+	}
+	if bit() {
+		o.MaxConnections = []int{1, 7, 1000}[n%3]
+		n >>= 2
+	}
+	if bit() {
+		o.IdleTimeout = []time.Duration{time.Second, 5 * time.Minute, time.Hour}[n%3]
+		n >>= 2
+	}
+	o.TCPKeepAlive, o.TCPNoDelay = bit(), bit()
+	if bit() {
+		o.SendBufferSize, o.ReceiveBufferSize = 4096, 8192
+	}
+	if bit() {
+		o.Timeouts = &absnfs.TimeoutConfig{ReadTimeout: 40 * time.Second, WriteTimeout: 50 * time.Second, LookupTimeout: 45 * time.Second,
+			ReaddirTimeout: 35 * time.Second}
+	}
+	return o
+}
+
+func (c Cfg) baseOpts() absnfs.ExportOptions {
 	return absnfs.ExportOptions{ReadOnly: c.RO, Async: c.Async, MaxFileSize: c.MaxFile, TransferSize: c.Tsize,
 		AttrCacheTimeout: c.AttrTTL, AttrCacheSize: c.AttrCap, CacheNegativeLookups: c.NegOn, NegativeCacheTimeout: c.NegTTL,
 		EnableDirCache: c.DirOn, DirCacheTimeout: c.DirTTL, DirCacheMaxEntries: c.DirCap, DirCacheMaxDirSize: c.DirMaxSize,
@@ -77,6 +110,7 @@ func genCfg(r *Rand) Cfg {
 		DirOn: r.Bool(), DirTTL: []time.Duration{1, 50 * time.Millisecond, 10 * time.Second}[r.Intn(3)],
 		DirCap: PickInt(r, 1, 2, 1000), DirMaxSize: PickInt(r, 2, 10000, 10000),
 		MaxHand: PickInt(r, 0, 0, 0, 3, 6),
+		Noise:   r.U64(),
 	}
 }
 
